@@ -329,6 +329,82 @@ def token_alternatives(prog, bi, operand, depth=0, seen=None):
     return None
 
 
+def _recv_key(bi, x):
+    o = bi.trace(x, transparent=None)
+    return (o.kind, o.data if not isinstance(o.data, list) else tuple(o.data), o.fields())
+
+
+def sym(prog, bi, x, depth=0):
+    """shape of a usize expression in a listing body, over the symbols off (the paging offset, 0 when absent), size (the
+    effective page size) and len(v): ("off",) ("size",) ("len", v) ("min", {a, b}) ("sadd", {a, b}) ("sub", a, b) ("?", ..)"""
+    if depth > 12:
+        return ("?", "deep")
+    paging = prog.anchors.ty("Paging")
+    o = bi.trace(x)
+    if o.kind == "call" and not o.path:
+        t = bi.call_at(o.data)
+        if t.callee is None:
+            return ("?", "indirect")
+        pth, n = t.callee.path, t.callee.path.split("::")[-1]
+        tgt = t.callee.target or ""
+        if tgt == paging + "::to_skip":
+            return ("off",)
+        if tgt == paging + "::size":
+            return ("size",)
+        if n == "min" and len(t.args) == 2 and ("Ord" in pth or pth.startswith("std::cmp::min")):
+            return ("min", frozenset(sym(prog, bi, a, depth + 1) for a in t.args))
+        if n == "saturating_add" and len(t.args) == 2:
+            return ("sadd", frozenset(sym(prog, bi, a, depth + 1) for a in t.args))
+        if n == "len" and (pth.startswith("std::vec::Vec") or pth.startswith("core::slice")):
+            return ("len", _recv_key(bi, t.args[0]))
+        if n == "len" and "ExactSizeIterator" in pth:
+            r = bi.trace(t.args[0])
+            if r.kind == "agg" and not r.path and (bi.agg_at(r.data).j.get("adt") or "").endswith("ops::Range"):
+                rv = bi.agg_at(r.data)
+                return ("sub", sym(prog, bi, rv.ops[1], depth + 1), sym(prog, bi, rv.ops[0], depth + 1))     # Range::len = end - start (0 when empty)
+        return ("?", pth)
+    return ("?", repr(o))
+
+
+def window_cuts(prog, bi):
+    """places where the listing is cut by an index window instead of skip/take:
+         v[start..end]                                  (Index::index with a Range)
+         v.drain(..start); v.truncate(end - start)
+       with  start = min(off, len(v)),  end = min(start (+sat) size, len(v)).
+    That window is in bounds for every off / size and selects exactly the elements skip(off).take(size) yields.
+    Returns [(kind, site_bb, receiver operand, ok: bool, {blocks that are bounds-safe})]"""
+    res = []
+
+    def canon(v):
+        start = ("min", frozenset({("off",), ("len", v)}))
+        end = ("min", frozenset({("sadd", frozenset({start, ("size",)})), ("len", v)}))
+        return start, end
+
+    truncs = [(bb, t) for bb, t in bi.calls(lambda c: c.path == "std::vec::Vec::<T, A>::truncate")]
+    for bb, t in bi.calls(lambda c: c.path in ("std::ops::Index::index", "std::vec::Vec::<T, A>::drain")):
+        if bb not in bi.cfg.reach or bi.body.blocks[bb].cleanup or len(t.args) != 2:
+            continue
+        r = bi.trace(t.args[1])
+        if r.kind != "agg" or r.path:
+            continue
+        rv = bi.agg_at(r.data)
+        adt = rv.j.get("adt") or ""
+        v = _recv_key(bi, t.args[0])
+        start, end = canon(v)
+        if t.callee.path.endswith("Index::index") and adt.endswith("ops::Range"):
+            ok = sym(prog, bi, rv.ops[0]) == start and sym(prog, bi, rv.ops[1]) == end
+            res.append(("index", bb, t.args[0], ok, {bb} if ok else set()))
+        elif t.callee.path.endswith("::drain") and adt.endswith("ops::RangeTo"):
+            if sym(prog, bi, rv.ops[0]) != start:
+                res.append(("drain", bb, t.args[0], False, set()))
+                continue
+            # .. followed by truncate(end - start) on the same vector
+            tr = [(tb, tt) for tb, tt in truncs if bi.cfg.dominates(bb, tb) and _recv_key(bi, tt.args[0]) == v]
+            ok = len(tr) == 1 and sym(prog, bi, tr[0][1].args[1]) == ("sub", end, start)
+            res.append(("drain", tr[0][0] if ok else bb, t.args[0], ok, {bb}))
+    return res
+
+
 def index_sites(bi):
     return [blk.idx for blk in bi.body.blocks if not blk.cleanup and blk.idx in bi.cfg.reach and (
         (blk.term.k == "assert" and blk.term.j.get("msg") == "BoundsCheck") or
@@ -362,6 +438,31 @@ def index_guarded(bi, bb):
     return False
 
 
+def scope_by_loop(prog, bi, sl, bid, st):
+    """the candidates may be gathered by hand (`for t in map.values() { if t.name.is_in_project(p) { found.push(t.clone()) } }`):
+    every push of a map element that feeds the pipeline sits on the true arm of an is_in_project() test"""
+    from mapstate import _bool_switches
+    A = prog.anchors
+    maps = {A.cell("TopicState", "topics"), A.cell("SubState", "subscriptions")}
+    src = sl.of(bid, bi.call_at(st["skip"]).args[0])
+    if not any(c.endswith("::push") for c in src.calls):
+        return False
+    ok_blocks = set()
+    for bb, t in bi.calls(lambda c: c.target.endswith("::is_in_project")):
+        if t.dest is None or not t.dest.is_local():
+            continue
+        for sw, tr, fa in _bool_switches(bi, t.dest.local):
+            if tr is not None:
+                ok_blocks |= bi.cfg.edge_dominated(sw, tr)
+    pushes = []
+    for bb, t in bi.calls(lambda c: c.path == "std::vec::Vec::<T, A>::push"):
+        if not bi.cfg.can_reach(bb, st["skip"]):
+            continue
+        if maps & sl.of(bid, t.args[1]).fields:
+            pushes.append(bb)
+    return bool(pushes) and all(bb in ok_blocks for bb in pushes)
+
+
 @rule("C13", "R13.2", "the three listing pipelines are siblings: scope filter, sort, skip(offset), take(size), next page", floor=3)
 def r13_2(prog, out):
     A = prog.anchors
@@ -384,6 +485,45 @@ def r13_2(prog, out):
             if pushes and reads_paging and not unguarded:
                 out.undecided("%s:stages" % name, bi.loc(pushes[0]), "the page is filled by a hand-written loop instead of skip(offset).take(size): "
                               "equivalence with the sibling pipelines is not decided statically")
+                continue
+        if missing and set(missing) <= {"skip", "take"}:
+            cuts = window_cuts(prog, bi)
+            if cuts and all(c[3] for c in cuts) and len(cuts) == 1:
+                kind, site, recv, _ok, _safe = cuts[0]
+                out.holds("%s:stages" % name, bi.loc(site), "the page is the index window [min(off, len), min(start + size, len)) of the sorted list: "
+                          "the elements skip(off).take(size) yields, in bounds for every offset")
+                if "reorder" in st:
+                    out.violation("%s:order" % name, bi.loc(st["reorder"][0]), "the listing is passed through %s: pages are no longer in creation order" % st["reorder"][1])
+                key = "%s:sorted-before-paging" % name
+                if bi.cfg.dominates(st["sort"][0], site) and st["sort"][1] in ("sort", "sort_unstable"):
+                    out.holds(key, bi.loc(st["sort"][0]), "sorted by the resource's Ord (creation id) before the window is cut")
+                elif bi.cfg.dominates(st["sort"][0], site):
+                    out.undecided(key, bi.loc(st["sort"][0]), "custom comparator %s" % st["sort"][1])
+                else:
+                    out.violation(key, bi.loc(site), "the page is cut before the resources are sorted: pages overlap or miss resources")
+                key = "%s:scope" % name
+                src = sl.of(bid, recv)
+                if A.cell("TopicActor", "subscriptions") in src.fields:
+                    out.holds(key, prog.loc(bid), "lists the topic's own subscription set")
+                elif "filter" in st and bi.cfg.dominates(st["filter"], site):
+                    fcl = bi.trace(bi.call_at(st["filter"]).args[1])
+                    okf = fcl.kind == "agg" and any(t.callee.target.endswith("::is_in_project")
+                                                    for bb, t in prog.info(prog.qual(b, bi.agg_at(fcl.data).j["def"])).calls())
+                    if okf and any(c.endswith("Iterator::filter") for c in src.calls):
+                        out.holds(key, bi.loc(st["filter"]), "filtered by project before paging")
+                    else:
+                        out.violation(key, bi.loc(st["filter"]), "the listing filter does not compare the project (or does not feed the page)")
+                else:
+                    out.violation(key, prog.loc(bid), "the listing is not restricted to the requested project: resources of other projects are returned")
+                key = "%s:next-page" % name
+                if bi.cfg.dominates(site, st["next_page"]):
+                    out.holds(key, bi.loc(st["next_page"]), "next offset derived from the page that was cut")
+                else:
+                    out.violation(key, bi.loc(st["next_page"]), "next page computed before the page is cut")
+                continue
+            if cuts:
+                out.undecided("%s:stages" % name, bi.loc(cuts[0][1]), "the page is cut by index arithmetic that is not the window [min(off, len), min(start + size, len)): "
+                              "equivalence with skip(offset).take(size) is not decided (bounds are judged by R13.6)")
                 continue
         if missing:
             idx = [blk.idx for blk in b.blocks if not blk.cleanup and ((blk.term.k == "assert" and blk.term.j.get("msg") == "BoundsCheck")
@@ -442,6 +582,8 @@ def r13_2(prog, out):
                 out.holds(key, bi.loc(st["filter"]), "filtered by project before paging")
             else:
                 out.violation(key, bi.loc(st["filter"]), "the listing filter does not compare the project (or runs after paging)")
+        elif scope_by_loop(prog, bi, sl, bid, st):
+            out.holds(key, prog.loc(bid), "the candidates are gathered by a loop that keeps an element only when is_in_project() holds")
         else:
             out.violation(key, prog.loc(bid), "the listing is not restricted to the requested project: resources of other projects are returned")
         # the next offset is computed from this page
@@ -718,6 +860,10 @@ def r13_6(prog, out):
                 if t.k == "assert" and t.j.get("msg") == "BoundsCheck":
                     bad.append((cid, blk.idx, "indexing"))
             bad = [x for x in bad if not (x[0] == cid and x[2] == "index" and index_guarded(ci, x[1]))]
+            safe = set()
+            for c in window_cuts(prog, ci) if cid == bid else []:
+                safe |= c[4]
+            bad = [x for x in bad if not (x[0] == cid and x[1] in safe)]
         # arithmetic on the (client supplied) offset inside the pipeline itself
         bi0 = prog.info(bid)
         from slicing import Slicer
